@@ -140,9 +140,18 @@ Definition hp_step (st : hp_state) (o : hp_op) : option (hp_state * hp_out) :=
       Some (mkHp (rt_del (hp_routes st) d l u) (hp_seq st) [] (hp_busy st), HDone)
   | HBegin rid _ _ host path user dialed =>
       (* injectRequestInfoToCtx: rc := GetRouteConfig(CanonicalHost(req.Host), req.URL.Path, user) *)
-      hp_roundtrip st (hp_routed st host path user) (hp_key_of st host path user) rid dialed
+      (* serveRouted (since e5418a8): a request without a route config is answered 404 right here and never
+         reaches the Transport -- its URL host would be its own Host header, which may spell the pool
+         key of a route *)
+      match hp_routed st host path user with
+      | None => Some (st, HNotFound)
+      | Some _ => hp_roundtrip st (hp_routed st host path user) (hp_key_of st host path user) rid dialed
+      end
   | HBeginRaced rid _ _ host path user dialed between =>
-      hp_roundtrip (hp_reg_step st between) (hp_routed st host path user) (hp_key_of st host path user) rid dialed
+      match hp_routed st host path user with
+      | None => Some (hp_reg_step st between, HNotFound)     (* answered before anything can overtake it *)
+      | Some _ => hp_roundtrip (hp_reg_step st between) (hp_routed st host path user) (hp_key_of st host path user) rid dialed
+      end
   | HEnd rid =>
       match hp_take_busy rid (hp_busy st) with
       | Some (c, busy') => Some (mkHp (hp_routes st) (hp_seq st) (c :: hp_idle st) busy', HDone)
